@@ -46,6 +46,16 @@ def install(I):
         return Iface(-20, Native('ctx', cancelled=c, as_iface=True))
 
     I.intrinsics['verif_ctx'] = v_ctx
+
+    def v_cancel_ctx(I, args, ins):
+        n = Native('ctx', cancelled=False, as_iface=True)
+
+        def cancel(I2, a2):
+            n.cancelled = True
+            return None
+        return (Iface(-20, n), PyFunc(cancel))
+
+    I.intrinsics.setdefault('verif_cancelCtx', v_cancel_ctx)
     CANCELED = Iface(-1, Native('sentinel', name='context.Canceled'))
     I.methods[('ctx', 'Err')] = lambda I, a, ins: CANCELED if a[0].cancelled else None
     I.methods[('ctx', 'Done')] = lambda I, a, ins: Native('donechan', closed=a[0].cancelled)
